@@ -62,6 +62,9 @@ def main():
         from harness import sync
 
         variants = sync.ensure(rep)  # regenerates tied artefacts from /repo's working tree
+        from harness import provenance
+
+        provenance.apply(rep, pid)  # hand-modelled source units edited since the record: larger budgets, noted in the evidence
         if not a.no_lean and os.environ.get("XV_NO_LEAN") != "1":
             from harness import lean
 
